@@ -158,6 +158,38 @@ def run(ctx):
         res.site(key, True, {"store": store, "verdict": "ok" if ok else "VIOLATION"})
         if not ok:
             res.find(key, f.loc(), "simplify does not filter `%s` with retain(|..| used.contains(..))%s" % (store, " over names from get_waveform_invocation" if src_name else ""), "unused %s survive simplify or used ones are dropped" % store)
+    # the three pruning steps run on every path: nothing but the `?` of expand_calibrations controls them (a size
+    # comparison or an emptiness test in front of one of them leaves unused definitions behind for some programs)
+    rets = [rb for rb in f.return_blocks()]
+    for label, pred in (
+        ("frames", lambda c_, t_: c_.get("name") == "intersection"),
+        ("waveforms", lambda c_, t_: c_.get("name") == "retain" and "IndexMap" in callee_path(c_)),
+        ("extern_pragma_map", lambda c_, t_: c_.get("name") == "retain" and "ExternPragmaMap" in callee_path(c_)),
+    ):
+        key = "K7|prune-unconditional|%s" % label
+        sites_ = [(bb, t) for bb, t, c in f.calls() if c and pred(c, t)]
+        ok = False
+        conds = []
+        if len(sites_) == 1:
+            bb = sites_[0][0]
+            seen_, work = set(), [bb]
+            while work:
+                b_ = work.pop()
+                for sb, tgt in sorted(f.control_deps(b_, transitive=False)):
+                    if sb in seen_:
+                        continue
+                    seen_.add(sb)
+                    tt = f.blocks[sb]["t"]
+                    e = fn_expr_operand(f, tt["d"]) if tt["k"] == "switch" else ("x",)
+                    # the early return of `self.expand_calibrations()?`, and the exit test of the loop over the body
+                    if e[0] == "discr" and e[1][0] == "call" and (e[1][1].endswith("Try>::branch") or e[1][1].endswith("Iterator>::next")):
+                        work.append(sb)
+                        continue
+                    conds.append(str(e)[:90])
+            ok = not conds
+        res.site(key, True, {"sites": len(sites_), "conditions": conds, "verdict": "ok" if ok else "VIOLATION"})
+        if not ok:
+            res.find(key, f.loc(), "simplify prunes `%s` only under conditions %s (sites: %d); the pruning must happen on every path" % (label, conds, len(sites_)), "two DEFWAVEFORMs, one used, plus a `flat(...)` template in the body: the count test skips the prune and the unused waveform survives")
     # R3
     mm, cov = k2.coverage(db, gwi, INSTRUCTION, k2.is_adt(WFI))
     if mm is None:
